@@ -10,3 +10,17 @@ import SpoxModel.Props.C18
 #print axioms C18.dropped_iff
 #print axioms C18.relabel_build
 #print axioms C18.custom_composes
+#print axioms C18.adapt_ignores_foreign
+#print axioms C18.adapt_converts_older
+#print axioms C18.convert_keeps_foreign
+#print axioms C18.adapt_exits_covered
+#print axioms C18.adapt_functions_covered
+#print axioms C18.custom_build_sound
+#print axioms C18.custom_build_sound_nested
+#print axioms C18.custom_node_value
+#print axioms C18.standard_node_value
+#print axioms C18.inference_pointwise
+#print axioms C18.declared_type_reported
+#print axioms C18.declared_types_carried
+#print axioms C18.untyped_result_refused
+#print axioms C18.construct_reports
